@@ -30,6 +30,7 @@ import (
 	"strconv"
 	"strings"
 	"sync"
+	"sync/atomic"
 	"time"
 	"unicode/utf8"
 
@@ -66,7 +67,7 @@ var tokenPool = []string{"{", "}", "(", ")", "[", "]", ":", "!", "=", "@", "$", 
 	"Entity", "U", "In", "Color", "Int", "String", "RED", "skip", "include", "if", "tag", "__typename", "__schema", "__type", "name", "i", "in", "l", "ll", "x", "y",
 	"2147483647", "2147483648", "-2147483649", "-0", "0", "1e400", "9223372036854775808", "1.5", "00", "1.", ".5", "-", "1e", "0x1F",
 	`""`, `"a"`, `"\u0000"`, `"\uD800"`, `"\uZZZZ"`, `"\x"`, `"unterminated`, `""""""`, `"""a\"""b"""`, `"""`, "#c\n", "\ufeff", "\r", "\u2028", "\x00", "\xff", "\xc3", "\ufffd", "é", "😀",
-	"$v", "$w", "$i", "$in", "$x", "$undefined", "F", "G", "...F", "... on Obj", "... on Entity", "@skip(if: $v)", "@include(if: null)", "@skip", "@tag(n: $i)", "(x: null)", "(i: $in)", "[$i]", "{a: $i}", "{b: null}"}
+	"$v", "$w", "$i", "$in", "$x", "$undefined", "query($v: Obj = 1)", "($q: [Obj!] = [{int: 1}])", "$v: Entity = {id: 1}", "$e: Color = 1", "$u: U", "= 1", "= {b: 1}", "= [[1]]", ": Obj", ": [U!]!", "F", "G", "...F", "... on Obj", "... on Entity", "@skip(if: $v)", "@include(if: null)", "@skip", "@tag(n: $i)", "(x: null)", "(i: $in)", "[$i]", "{a: $i}", "{b: null}"}
 
 var jsonPool = []string{`null`, `true`, `false`, `0`, `1`, `-1`, `2147483647`, `2147483648`, `-2147483649`, `1.5`, `1e3`, `1e400`, `9007199254740993`, `123456789012345678901234567890`,
 	`""`, `"x"`, `"RED"`, `"red"`, `"2020-01-01T00:00:00Z"`, `[]`, `[1]`, `[null]`, `[[1,2],[3]]`, `[[null]]`, `{}`, `{"b":"s"}`, `{"a":1,"b":"x","c":[{"b":"y"}],"d":"GREEN"}`,
@@ -173,6 +174,34 @@ func genCase(seed int64, idx int) Case {
 				}
 				fmt.Fprintf(&sb, " fragment F%d on Query{int}", n)
 				return sb.String()
+			}(),
+			func() string { // recursion-guard drift: many siblings of one production, then nesting beyond the limit.
+				// A production that leaves the depth counter too high makes wide documents fail (C12); one
+				// that leaves it too low lets nesting run away: with 300k siblings the guard would admit
+				// tens of thousands of levels and the (64 MiB-limited) stack overflows.
+				n, depth := 300000, 80000
+				if d < 3000 {
+					n, depth = 300, 1200
+				}
+				sib := hx.Pick(r, []string{"...F ", "a:int ", "... on Query{int} ", "...{int} ", "int @tag ", "args(i:1) ", "args(l:[1,2]) ", "args(in:{b:\"x\"}) "})
+				open, close := "obj{", "}"
+				switch r.Intn(4) {
+				case 0:
+					open, close = "...{", "}"
+				case 1:
+					open, close = "... on Query{", "}"
+				}
+				return "{" + strings.Repeat(sib, n) + strings.Repeat(open, depth) + "int" + strings.Repeat(close, depth) + "} fragment F on Query{int}"
+			}(),
+			func() string { // same for values: many list items / object fields, then deep value nesting
+				n, depth := 300000, 80000
+				if d < 3000 {
+					n, depth = 300, 1200
+				}
+				if r.Bool() {
+					return "{args(ll:[" + strings.Repeat("[1],", n) + strings.Repeat("[", depth) + "1" + strings.Repeat("]", depth) + "])}"
+				}
+				return "query(" + strings.Repeat("$a:Int ", n/10) + "$v:" + strings.Repeat("[", depth) + "Int" + strings.Repeat("]", depth) + "){int}"
 			}(),
 			func() string { // spread cycle
 				return "{...A} fragment A on Query{...B} fragment B on Query{...A " + rep("...A ") + "}"
@@ -490,7 +519,7 @@ type line struct {
 }
 
 func worker(seed int64, from, to int, perCase time.Duration) {
-	debug.SetMaxStack(256 << 20)
+	debug.SetMaxStack(64 << 20)
 	setup()
 	out := bufio.NewWriter(os.Stdout)
 	var mu sync.Mutex
@@ -557,7 +586,7 @@ func main() {
 	dumpSites := flag.Bool("dump-panic-sites", false, "print the panic-site inventory of $VERIF_REPO as JSON and exit")
 	run := hx.Init("C03")
 	run.MaxPerKey = 40 // failures are de-duplicated by signature below
-	perCase := 60 * time.Second
+	perCase := 40 * time.Second
 	if *isWorker {
 		worker(run.Seed, *from, *to, perCase)
 		return
@@ -612,6 +641,7 @@ func main() {
 	var mu sync.Mutex
 	var wg sync.WaitGroup
 	sigSeen := map[string]int{}
+	var abort int32 // set once a stall or process death repeats: every further such case costs up to 40 s
 	var admReqs []string
 	var admCases []Case
 	record := func(l line, c Case) {
@@ -632,6 +662,9 @@ func main() {
 		if l.Fail != "" {
 			sg := signature(l.Fail)
 			run.Count("failure:" + sg)
+			if (l.Class == "hang" || l.Class == "crash") && run.Distribution("failure:"+sg) >= 3 {
+				atomic.StoreInt32(&abort, 1)
+			}
 			if sigSeen[sg] >= 2 {
 				return
 			}
@@ -647,7 +680,7 @@ func main() {
 		}
 	}
 	runRange := func(from, to int) {
-		for from < to {
+		for from < to && atomic.LoadInt32(&abort) == 0 {
 			cmd := exec.Command(self, "-worker", "-from", strconv.Itoa(from), "-to", strconv.Itoa(to), "-seed", strconv.FormatInt(run.Seed, 10))
 			var stderr bytes.Buffer
 			cmd.Stderr = &stderr
@@ -757,6 +790,9 @@ func main() {
 			run.Violate("correspondence", "panic-capable sites without a discharged row in checks/C03.panicsites.json (new unchecked assertion / panic / reflect call): "+strings.Join(missing, "; "), "", true, map[string]interface{}{"undischarged_sites": missing})
 		}
 	}
+	if atomic.LoadInt32(&abort) != 0 {
+		run.Note("search stopped early: the same stall / process death was seen three times")
+	}
 	run.Oblige("oracle: returns normally (no panic / fatal / stall), response serialises, null-or-absent data ⇒ errors", "oracle", total, run.Violations() == 0, "see violations")
 	if run.ModelPath == "" {
 		run.Finish(nil)
@@ -800,15 +836,15 @@ func init() {
 	if js := os.Getenv("C03_CASE"); js != "" {
 		var c Case
 		if json.Unmarshal([]byte(js), &c) == nil {
-			debug.SetMaxStack(256 << 20)
+			debug.SetMaxStack(64 << 20)
 			setup()
 			done := make(chan string, 1)
 			go func() { done <- runCase(c) }()
 			var fail string
 			select {
 			case fail = <-done:
-			case <-time.After(60 * time.Second):
-				fail = "hang: no result within 60s"
+			case <-time.After(40 * time.Second):
+				fail = "hang: no result within 40s"
 			}
 			b, _ := json.Marshal(line{Idx: c.Idx, Fail: fail})
 			fmt.Println(string(b))
